@@ -58,6 +58,18 @@ CHECKS = {
         "note": "Operations already past their closed check when the drop happens are concurrent with it and outside the statement.",
         "technique": "Coq proof over a small model + lifecycle scenario runs with /proc observation",
     },
+    "C18": {
+        "text": "Machine-checked proof over a transition system of the two periodic tasks on top of the engine model: with policy "
+                "never no merge ever runs; with policy always, at every wake-up a merge runs exactly when some file exceeds a trigger, "
+                "the fragmentation trigger evaluated in IEEE-754 binary64 (Flocq) as the code does; with interval sync every wake-up "
+                "forces the active file. Partial: real time is abstracted to ticks. The check compares verif_can_merge() with the "
+                "binary64 model on generated counter states (incl. 0.6 vs 3/5), and observes real timers: merges appear / do not "
+                "appear without client action, fsync calls per interval counted by the recorder.",
+        "design_ref": "DESIGN.md section 8, C18",
+        "note": "Ticks abstract time; the window policy is outside the property. Flocq executable definitions are used by computation "
+                "(vm_compute); Print Assumptions of the theorems is closed.",
+        "technique": "Coq proof over an LTS with Flocq binary64 trigger + timed scenario runs + trigger correspondence",
+    },
     "C07": {
         "text": "Machine-checked proof (Coq 8.16) over a hand-written executable model of Frame::check / Frame::parse / "
                 "get_integer / get_line: totality (no panic, no out-of-fuel, nesting bounded by 33 calls), exactness of "
